@@ -1,4 +1,5 @@
 import TrackVerif.Geo.RealLemmas
+import TrackVerif.Geo.Period
 /-
   C18 — Point-to-point and point-to-line distances match great-circle geometry.
   Property theorems only (over ℝ; float64 rounding is outside the theorems and is sampled).
@@ -88,5 +89,82 @@ theorem equirect_meridian (p1 p2 l r : ℝ) :
     distanceEquirect p1 l p2 l r = |p2 - p1| * r := by
   rw [distanceEquirect_real]
   simp [Real.sqrt_sq_eq_abs]
+
+/-- the default (haversine) distance in degrees sees longitudes only up to whole turns of 360 … -/
+theorem distance_longitude_period (r lat1 lon1 lat2 lon2 : ℝ) (k1 k2 : ℤ) :
+    distance false r lat1 (lon1 + k1 * 360) lat2 (lon2 + k2 * 360) = distance false r lat1 lon1 lat2 lon2 := by
+  unfold distance distanceHaversin
+  simp only [Bool.false_eq_true, if_false, rl_mul, deg_turns, distanceHav_turns]
+
+/-- … and both methods only through the difference of the two longitudes -/
+theorem distance_longitude_origin (fast : Bool) (r lat1 lon1 lat2 lon2 δ : ℝ) :
+    distance fast r lat1 (lon1 + δ) lat2 (lon2 + δ) = distance fast r lat1 lon1 lat2 lon2 := by
+  unfold distance distanceHaversin distanceEquirect
+  have h : (lon2 + δ) * (radians : ℝ) - (lon1 + δ) * radians = lon2 * radians - lon1 * radians := by ring
+  cases fast
+  · simp only [Bool.false_eq_true, if_false, rl_mul, rl_add, deg_shift, distanceHav_shift]
+  · simp only [if_true, rl_mul, rl_add, rl_sub, h]
+
+/-- the distance to a line does not depend on the origin of longitude either (the test for a line
+    that is a single point compares the ends with each other, which a common shift preserves) -/
+theorem distanceToLine_longitude_origin (r pLat pLon sLat sLon eLat eLon δ : ℝ) :
+    distanceToLine r pLat (pLon + δ) sLat (sLon + δ) eLat (eLon + δ) =
+      distanceToLine r pLat pLon sLat sLon eLat eLon := by
+  unfold distanceToLine distanceHaversin
+  have h1 : (sLon * (radians : ℝ) + δ * radians ≤ eLon * radians + δ * radians) ↔ (sLon * (radians : ℝ) ≤ eLon * radians) :=
+    add_le_add_iff_right _
+  have h2 : (eLon * (radians : ℝ) + δ * radians ≤ sLon * radians + δ * radians) ↔ (eLon * (radians : ℝ) ≤ sLon * radians) :=
+    add_le_add_iff_right _
+  simp only [rl_mul, rl_le, deg_shift, h1, h2, distanceHav_shift, onLineQ_shift]
+
+/-- a line that is a single point (a marker post): the distance to it is the distance to the point -/
+theorem line_that_is_a_point (r pLat pLon sLat sLon : ℝ) :
+    distanceToLine r pLat pLon sLat sLon sLat sLon = distance false r pLat pLon sLat sLon := by
+  unfold distanceToLine distance
+  simp
+
+/-- a position at the first end of the line is at distance zero from it (the degenerate bearing
+    — the position coincides with the point the bearings are taken at — is resolved towards zero
+    cross-track, not towards a division by zero) -/
+theorem distanceToLine_at_start (r sLat sLon eLat eLon : ℝ) :
+    distanceToLine r sLat sLon sLat sLon eLat eLon = 0 := by
+  have hz : ∀ p l : ℝ, distanceHav p l p l = 0 := by
+    intro p l; simp [distanceHav, hav_real]
+  have hi : invHav (0 : ℝ) = 0 := by simp [invHav_real]
+  unfold distanceToLine
+  dsimp only
+  split
+  · rename_i h
+    simp only [Bool.and_eq_true, rl_le, decide_eq_true_eq] at h
+    obtain ⟨⟨⟨h1, h2⟩, h3⟩, h4⟩ := h
+    have e1 : sLat * (radians : ℝ) = eLat * radians := le_antisymm h1 h2
+    have e2 : sLon * (radians : ℝ) = eLon * radians := le_antisymm h3 h4
+    simp only [distanceHaversin, rl_mul, e1, e2, hz, hi, zero_mul]
+  · have hb : sinDeltaBearing (sLat * (radians : ℝ)) (sLon * radians) (eLat * radians) (eLon * radians)
+        (sLat * radians) (sLon * radians) = 1 := by
+      unfold sinDeltaBearing
+      simp [hav_real, zero, one]
+    have hq01 : (onLineQ (sLat * (radians : ℝ)) (sLon * radians) (sLat * radians) (sLon * radians)
+        (eLat * radians) (eLon * radians)).d01 = 0 := hz _ _
+    have htr : (onLineQ (sLat * (radians : ℝ)) (sLon * radians) (sLat * radians) (sLon * radians)
+        (eLat * radians) (eLon * radians)).track = 0 := by
+      show havSin (sinHav (distanceHav _ _ _ _) * sinDeltaBearing _ _ _ _ _ _) = 0
+      rw [hz, hb]
+      simp [havSin, sinHav, two, one, half]
+    have hterm : (onLineQ (sLat * (radians : ℝ)) (sLon * radians) (sLat * radians) (sLon * radians)
+        (eLat * radians) (eLon * radians)).term = (onLineQ (sLat * (radians : ℝ)) (sLon * radians) (sLat * radians) (sLon * radians)
+        (eLat * radians) (eLon * radians)).d02 := by
+      show distanceHav _ _ _ _ + (onLineQ (sLat * (radians : ℝ)) (sLon * radians) (sLat * radians) (sLon * radians)
+        (eLat * radians) (eLon * radians)).track * _ = distanceHav _ _ _ _
+      rw [htr]; simp
+    have hd02 : 0 ≤ (onLineQ (sLat * (radians : ℝ)) (sLon * radians) (sLat * radians) (sLon * radians)
+        (eLat * radians) (eLon * radians)).d02 := by
+      show 0 ≤ distanceHav _ _ _ _
+      rw [distanceHav_chord]
+      have := dot_bounds (sLat * (radians : ℝ)) (sLon * radians) (eLat * radians) (eLon * radians)
+      linarith [this.2]
+    simp only [rl_lt, hterm, hq01, htr, lt_irrefl, decide_false, Bool.or_false,
+      not_lt.mpr hd02, hi, zero_mul, rl_mul]
+    simp
 
 end TrackVerif.C18
